@@ -47,8 +47,10 @@ var _ = bufio.NewReader
 // 2^60: far beyond any input; keeps line arithmetic away from wrap-around.
 // lines + unread bytes (+1 for the line closed at end of input) never grows: no wrap-around of l.line
 //@ pred okL(l *Lexer) = l != nil && l.r != nil && l.buffer != nil && l.r.g_rem >= 0 && l.r.g_rem <= 1152921504606846976 && l.line >= 1 && l.line <= 1152921504606846976 && l.line + l.r.g_rem + b2i(!l.isEOF) <= 1152921504606846976
-//@ pred okTok(t token.Token, l *Lexer) = t.Type != "" && t.Line >= 1 && t.Line <= l.line
-//@ pred okPeeks(l *Lexer) = forall k int :: 0 <= k && k < len(l.peeks) ==> l.peeks[k].Type != "" && l.peeks[k].Line >= 1 && l.peeks[k].Line <= l.line
+// custom token types registered by the caller are real types; when one of them is empty, tokens of
+// that custom keyword have no type - every "typed" statement below is made under okCustoms
+//@ pred okCustoms(l *Lexer) = forall s string :: has(l.customs, s) ==> l.customs[s] != ""
+//@ pred okPeeks(l *Lexer) = (forall k int :: 0 <= k && k < len(l.peeks) ==> l.peeks[k].Line >= 1 && l.peeks[k].Line <= l.line) && (okCustoms(l) ==> (forall k int :: 0 <= k && k < len(l.peeks) ==> l.peeks[k].Type != ""))
 
 // what is still to be lexed: unread bytes plus the character in hand. Token-level progress is
 // lexicographic in (lexG, number of queued tokens).
@@ -77,7 +79,7 @@ var _ = bufio.NewReader
 //@   ensures result != 0 ==> l.r.g_rem >= 1
 
 //@ func collect [C01]
-//@   ensures result != nil
+//@   ensures result != nil && result.Customs != nil
 
 //@ func (*Lexer).NewLine [C01]
 //@   requires l != nil && l.buffer != nil
@@ -169,13 +171,10 @@ var _ = bufio.NewReader
 
 // ---- tokens ------------------------------------------------------------------------------------------
 
-// custom token types registered by the caller are real types
-//@ pred okCustoms(l *Lexer) = forall s string :: has(l.customs, s) ==> l.customs[s] != ""
-
 //@ func (*Lexer).NextToken [C01]
-//@   requires okL(l) && okPeeks(l) && okCustoms(l)
-//@   ensures okL(l) && okPeeks(l) && l.r == old(l.r)
-//@   ensures [token-typed] result.Type != ""
+//@   requires okL(l) && okPeeks(l)
+//@   ensures okL(l) && okPeeks(l) && l.r == old(l.r) && l.customs == old(l.customs)
+//@   ensures [token-typed] okCustoms(l) ==> result.Type != ""
 //@   ensures [token-located] result.Line >= 1 && result.Line <= l.line
 //@   ensures [input-only-shrinks] l.r.g_rem <= old(l.r.g_rem)
 //@   ensures [progress] result.Type != token.EOF ==> lexG(l) < old(lexG(l)) || (lexG(l) == old(lexG(l)) && len(l.peeks) < old(len(l.peeks)))
@@ -187,9 +186,9 @@ var _ = bufio.NewReader
 //@   loop 1 decreases l.r.g_rem + b2i(l.char != 0)
 
 //@ func (*Lexer).PeekToken [C01]
-//@   requires okL(l) && okPeeks(l) && okCustoms(l)
-//@   ensures [lexer-ok] okL(l) && l.r == old(l.r)
-//@   ensures [peeked-typed] forall k int :: 0 <= k && k < len(l.peeks) ==> l.peeks[k].Type != ""
+//@   requires okL(l) && okPeeks(l)
+//@   ensures [lexer-ok] okL(l) && l.r == old(l.r) && l.customs == old(l.customs)
+//@   ensures [peeked-typed] okCustoms(l) ==> (forall k int :: 0 <= k && k < len(l.peeks) ==> l.peeks[k].Type != "")
 //@   ensures [peeked-line-lo] forall k int :: 0 <= k && k < len(l.peeks) ==> l.peeks[k].Line >= 1
 //@   ensures [peeked-line-hi] forall k int :: 0 <= k && k < len(l.peeks) ==> l.peeks[k].Line <= l.line
 //@   ensures [no-regress] lexG(l) <= old(lexG(l)) && (result.Type != token.EOF ==> lexG(l) < old(lexG(l)) || len(l.peeks) <= old(len(l.peeks)))
@@ -197,12 +196,15 @@ var _ = bufio.NewReader
 //@   ensures [untouched-when-queued] old(len(l.peeks)) > 0 ==> len(l.peeks) == old(len(l.peeks)) && lexG(l) == old(lexG(l)) && l.peeks[0].Type == old(l.peeks[0].Type)
 //@   ensures [reads-when-empty] old(len(l.peeks)) == 0 && result.Type != token.EOF ==> lexG(l) < old(lexG(l))
 //@   ensures [at-most-one-queued] lexG(l) == old(lexG(l)) ==> len(l.peeks) <= old(len(l.peeks)) + 1
-//@   ensures [token-typed] result.Type != ""
+//@   ensures [token-typed] okCustoms(l) ==> result.Type != ""
 //@   ensures [token-located] result.Line >= 1 && result.Line <= l.line
 
+//@ func New [C01]
+//@   requires r != nil
+//@   ensures [lexer-ready] result != nil && fresh(result) && okL(result) && len(result.peeks) == 0 && result.customs != nil
+
 //@ func NewFromString [C01]
-//@   ensures [non-nil C01] result != nil && fresh(result)
-//@   assigns heap
+//@   ensures [lexer-ready] result != nil && fresh(result) && okL(result) && len(result.peeks) == 0 && result.customs != nil
 
 // the sweep: no reachable panic anywhere in the package
 //@ forall-funcs .* [C01]
